@@ -3,6 +3,7 @@ package actions
 import (
 	"github.com/nyaruka/gocommon/i18n"
 	"github.com/nyaruka/gocommon/urns"
+	"github.com/nyaruka/gocommon/uuids"
 	"github.com/nyaruka/goflow/assets"
 	"github.com/nyaruka/goflow/flows"
 	"github.com/nyaruka/goflow/flows/events"
@@ -90,9 +91,10 @@ func (a *SendMsgAction) Execute(run flows.Run, step flows.Step, logModifier flow
 			locales := []i18n.Locale{run.Session().MergedEnvironment().DefaultLocale(), run.Session().Environment().DefaultLocale()}
 			translation := template.FindTranslation(dest.Channel, locales)
 			if translation != nil {
-				// evaluate the variables
-				evaluatedVariables := make([]string, len(a.TemplateVariables))
-				for i, varExp := range a.TemplateVariables {
+				// localize and evaluate the variables
+				localizedVariables, _ := run.GetTextArray(uuids.UUID(a.UUID()), "template_variables", a.TemplateVariables, nil)
+				evaluatedVariables := make([]string, len(localizedVariables))
+				for i, varExp := range localizedVariables {
 					v, _ := run.EvaluateTemplate(varExp, logEvent)
 					evaluatedVariables[i] = v
 				}
